@@ -5,6 +5,7 @@ From stdpp Require Import gmap.
 From Coq Require Import ZArith.
 From Synnax Require Import Common.Commute Cesium.Serial Cesium.SerialProofs.
 From Synnax Require Cesium.Domain Cesium.DomainProofs Cesium.DomainCommute.
+From Synnax Require Cesium.PersistOrder Cesium.PersistOrderProofs Generated.Consts_C09.
 Local Open Scope Z_scope.
 
 (* Two operations that report success and are independent — they touch different channels,
@@ -45,6 +46,51 @@ Theorem C09_index_inserts_commute : forall ps p q a ab b ba,
 Proof. exact DomainCommute.insert_commute. Qed.
 Print Assumptions C09_index_inserts_commute.
 
+(* ---- the clause "after close and reopen": persistence of the domain index of one channel.
+   Model Cesium/PersistOrder.v: threads run critical sections under the index lock (change the pointer list, take a
+   snapshot with prepare(start)) and later write their snapshot to index.domain (Truncate + WriteAt). [src_protocol]
+   and [src_prepare_in_critical_section] are read off the Go source on every run (Generated/Consts_C09.v).
+
+   For EVERY schedule of critical sections and writes, of any number of threads, lazy (unpersisted) commits and
+   partial persists (Delete persists from the first pointer it replaced) included: whenever no write is pending,
+   index.domain agrees with the pointer list below the lowest change that no later persist covered. *)
+Theorem C09_persist_order : forall m es s,
+  PersistOrder.run PersistOrder.LockInPrepare (PersistOrder.init m) es = Some s ->
+  PersistOrder.quiescent s = true ->
+  PersistOrderProofs.agree (PersistOrderProofs.dirt es) (PersistOrder.disk s) (PersistOrder.mem s).
+Proof. exact PersistOrderProofs.persist_order_general. Qed.
+Print Assumptions C09_persist_order.
+
+(* No lazy commits: index.domain holds exactly the acknowledged pointer list once no write is pending — under the
+   protocol and the call-site discipline the translator found in the CURRENT source.  (If the source takes the file
+   lock only at write time, or calls prepare outside the index lock, this theorem no longer type-checks.) *)
+Theorem C09_persist_order_src : forall m es s,
+  Consts_C09.src_prepare_in_critical_section = true /\
+  (PersistOrder.run Consts_C09.src_protocol (PersistOrder.init m) es = Some s ->
+   forallb PersistOrder.eager es = true -> PersistOrder.quiescent s = true ->
+   PersistOrder.disk s = PersistOrder.mem s).
+Proof. intros m es s. split; [reflexivity|exact (PersistOrderProofs.persist_order_eager m es s)]. Qed.
+Print Assumptions C09_persist_order_src.
+
+(* Lazy commits: a completed whole-index flush (Writer.Close) restores index.domain = pointer list, whatever the
+   schedule before it. *)
+Theorem C09_persist_order_flush : forall m es t s,
+  PersistOrder.run PersistOrder.LockInPrepare (PersistOrder.init m)
+    (es ++ [PersistOrder.EPrepare t (PersistOrder.Flush 0); PersistOrder.EWrite t]) = Some s ->
+  PersistOrder.quiescent s = true /\ PersistOrder.disk s = PersistOrder.mem s.
+Proof. exact PersistOrderProofs.persist_order_flush. Qed.
+Print Assumptions C09_persist_order_flush.
+
+(* The protocol before fix 39ba064 (file lock taken only when the write happens) does NOT have the property: two
+   eager commits whose writes cross leave index.domain without an acknowledged pointer (finding F74; reproduced on
+   the real code by the free-running repetition phase). *)
+Theorem C09_persist_order_late_refuted :
+  exists es s, PersistOrder.run PersistOrder.LockAtWrite (PersistOrder.init []) es = Some s /\
+               forallb PersistOrder.eager es = true /\ PersistOrder.quiescent s = true /\
+               PersistOrder.disk s <> PersistOrder.mem s.
+Proof. exact PersistOrderProofs.persist_order_late_refuted. Qed.
+Print Assumptions C09_persist_order_late_refuted.
+
 (* Non-vacuity: two threads (a writer producing new domains on group 1; a thread deleting an
    older range of group 1 and creating/dropping a private channel) are cross-independent,
    have a non-trivial interleaving, and the run changes the store. *)
@@ -66,3 +112,17 @@ Proof.
     + unfold ex_t1, ex_t2, ex_l. repeat constructor.
   - split; vm_compute; reflexivity.
 Qed.
+
+(* Non-vacuity for the persistence theorems: a schedule with a lazy commit by thread 2 between thread 1's prepare and
+   write, a delete-style partial persist, and a final flush runs under the current protocol and changes the file. *)
+Example C09_persist_nonvacuous :
+  let es := [PersistOrder.EPrepare 1 (PersistOrder.Mutate 0 [5; 6; 7] (Some 0%nat));
+             PersistOrder.EPrepare 2 (PersistOrder.Mutate 3 [9] None);
+             PersistOrder.EWrite 1;
+             PersistOrder.EPrepare 3 (PersistOrder.Mutate 1 [8] (Some 1%nat));
+             PersistOrder.EWrite 3] in
+  match PersistOrder.run PersistOrder.LockInPrepare (PersistOrder.init []) es with
+  | Some s => PersistOrder.quiescent s = true /\ PersistOrder.disk s = [5; 8] /\ PersistOrder.mem s = [5; 8]
+  | None => False
+  end.
+Proof. vm_compute. auto. Qed.
